@@ -180,6 +180,65 @@ def run(tier, seed, replay=None):
                 subprocess.run([build["gdlpp"], "p.gdl", pp], cwd=sd, capture_output=True)
                 lm = common.run_grcv(["linemap %s cUndefSeed" % pp])[0]
                 problems.append("seed at %s(%d): the error file cites %s; Lean line model on the real gdlpp output: %s" % (fn, ln, cites[:2], lm))
+        # seeded SYNTAX errors (parser diagnostics go through the token-stream filter's "previous marker" rule when the
+        # parser's lookahead has already crossed a #line marker: last statement of an include file, before a comment ...)
+        for (fn, ln, kind) in (pos if tier == "thorough" else crng.sample(pos, min(4, len(pos)))):
+            mod = {k: list(v) for k, v in files.items()}
+            line = mod[fn][ln - 1]
+            if line.startswith("RULE2(") or line.startswith("#") or line.rstrip().endswith("\\"):
+                continue
+            mod[fn][ln - 1] = line + " cSynSeedA cSynSeedB;" if kind == "class" else line + " cSynSeedA > > cSynSeedB;"
+            sd = os.path.join(d, "seedsyn")
+            shutil.rmtree(sd, ignore_errors=True)
+            os.makedirs(sd)
+            shutil.copy(os.path.join(d, "in.ttf"), sd)
+            shutil.copy(common.STDDEF, sd)
+            write_files(sd, mod)
+            rc, log, _ = common.run_grc(build, sd, ["-q", "p.gdl", "in.ttf", "out.ttf"])
+            err = open(os.path.join(sd, "gdlerr.txt"), errors="replace").read() if os.path.exists(os.path.join(sd, "gdlerr.txt")) else ""
+            cites = re.findall(r"^(\S+)\((\d+)\) : error\(\d+\): unexpected token", err, flags=re.M)
+            stats["syntax_seeds"] += 1
+            if rc == 0:
+                problems.append("syntax seed at %s(%d): the program compiled" % (fn, ln))
+            elif not cites:
+                problems.append("syntax seed at %s(%d): no 'unexpected token' error (errors: %s)" % (fn, ln, [l for l in err.split("\n") if "error" in l][:3]))
+            elif (fn, str(ln)) not in [(os.path.basename(f), l) for f, l in cites]:
+                problems.append("syntax seed at %s(%d): the error file cites %s" % (fn, ln, cites[:3]))
+        # the same with the offending tokens on a line of their own that is the LAST thing before a #line marker (end of the
+        # include file, a multi-line comment follows, a statement follows): the parser reports it only after its lookahead
+        # has crossed the marker, and the filter has to use the previous file name and line offset
+        inserts = []
+        for fn2, ls in files.items():
+            if fn2 != "p.gdl" and ls:
+                inserts.append((fn2, len(ls) + 1))              # new last line of the include file
+        for k2, l2 in enumerate(files["p.gdl"]):
+            if l2.startswith("/* a block comment"):
+                inserts.append(("p.gdl", k2 + 1))                # directly before the multi-line comment
+        if pos:
+            fnr, lnr, _k = crng.choice(pos)
+            if not files[fnr][lnr - 1].rstrip().endswith("\\") and not files[fnr][lnr - 1].startswith("#"):
+                inserts.append((fnr, lnr + 1))                   # after some statement
+        for (fn, ln) in inserts:
+            mod = {k: list(v) for k, v in files.items()}
+            mod[fn].insert(ln - 1, "cSynSeedA cSynSeedB")
+            sd = os.path.join(d, "seedsyn2")
+            shutil.rmtree(sd, ignore_errors=True)
+            os.makedirs(sd)
+            shutil.copy(os.path.join(d, "in.ttf"), sd)
+            shutil.copy(common.STDDEF, sd)
+            write_files(sd, mod)
+            rc, log, _ = common.run_grc(build, sd, ["-q", "p.gdl", "in.ttf", "out.ttf"])
+            err = open(os.path.join(sd, "gdlerr.txt"), errors="replace").read() if os.path.exists(os.path.join(sd, "gdlerr.txt")) else ""
+            cites = re.findall(r"^(\S+)\((\d+)\) : error\((\d+)\): unexpected token: cSynSeed", err, flags=re.M)
+            stats["syntax_seeds_before_marker"] += 1
+            for c in cites:
+                stats["parser_error_id_" + c[2]] += 1
+            if rc == 0:
+                problems.append("syntax seed line at %s(%d): the program compiled" % (fn, ln))
+            elif cites and (fn, str(ln)) not in [(os.path.basename(f), l) for f, l, _e in cites]:
+                problems.append("syntax seed line at %s(%d): the error file cites %s" % (fn, ln, cites[:3]))
+            elif not cites:
+                stats["syntax_seed_without_token_cite"] += 1
         if problems:
             dd = os.path.join(rep.replay_dir, "C18-%s-c%04d" % (seed, i))
             shutil.rmtree(dd, ignore_errors=True)
@@ -207,7 +266,9 @@ def run(tier, seed, replay=None):
         elif (r.returncode != 0) != said_error:
             rep.violation("pp-" + nm, {"problem": "gdlpp exit status %d but it %s an error" % (r.returncode, "reported" if said_error else "did not report"), "stderr": r.stderr[-300:]})
     rep.coverage.update({
-        "programs": stats["pairs"], "seeded_errors": stats["seeds"], "preprocessor_status_cases": stats["pp_cases"], "rejected": stats["rejected"],
+        "programs": stats["pairs"], "seeded_errors": stats["seeds"], "seeded_syntax_errors": stats["syntax_seeds"], "seeded_syntax_lines_before_marker": stats["syntax_seeds_before_marker"],
+        "parser_errors_via_previous_marker_rule(102)": stats["parser_error_id_102"], "parser_errors_direct(103)": stats["parser_error_id_103"],
+        "syntax_seed_without_token_cite": stats["syntax_seed_without_token_cite"], "preprocessor_status_cases": stats["pp_cases"], "rejected": stats["rejected"],
         "traces_validated_against_impl": stats["pairs"] + stats["seeds"] + stats["pp_cases"], "disagreements_checked": len(rep.violations),
         "evaluations": stats["pairs"] + stats["seeds"], "distinct_nontrivial": len(distinct) + 2,
         "rule": "each program in a flat and a decomposed spelling (include file, object/function-like macros with a continuation line, #if 0 / #ifdef regions, block/line comments, blank lines); undefined-class seeds at sampled (thorough: all) statement positions; 7 preprocessor status cases; distinct = distinct (file, statement kind, inside-macro) seed situations",
